@@ -176,9 +176,6 @@ Print Assumptions C01_values_in_test_refuted.
 Theorem C01_let_binds_values_refuted : fst (runM 60 w_let_values) <> fst (runS 60 w_let_values) /\ guardb 60 w_let_values = false.
 Proof. exact let_binds_values_refuted. Qed.
 Print Assumptions C01_let_binds_values_refuted.
-Theorem C01_mapcar_values_refuted : fst (runM 60 w_mapcar_values) <> fst (runS 60 w_mapcar_values) /\ guardb 60 w_mapcar_values = false.
-Proof. exact mapcar_values_refuted. Qed.
-Print Assumptions C01_mapcar_values_refuted.
 Theorem C01_too_few_arguments_refuted :
   fst (runM 60 w_short_args) = Ok (VList [VInt 1; VSym "x"]) /\ fst (runS 60 w_short_args) = Er EArity /\ guardb 60 w_short_args = false.
 Proof. exact too_few_arguments_refuted. Qed.
@@ -251,3 +248,14 @@ Theorem C01_setq_cond_single_value :
                     | Ok (VList [VInt 1; VNil]), Ok (VList [VInt 1; VNil]) => true | _, _ => false end) [Slip; Ref; Chk] = true.
 Proof. exact setq_cond_single_value. Qed.
 Print Assumptions C01_setq_cond_single_value.
+
+(* mapcar (repo_fixes/C01-17): in every mode the result list holds the primary value of each call, in call order. *)
+Theorem C01_mapcar_collects_primary : forall m ev st c row rows v st1 vs st2,
+  apply_fn m ev st c row = (Ok v, st1) -> ev_map m ev st1 c rows = (Ok vs, st2) ->
+  ev_map m ev st c (row :: rows) = (Ok (primary v :: vs), st2).
+Proof. exact mapcar_collects_primary. Qed.
+Print Assumptions C01_mapcar_collects_primary.
+Theorem C01_mapcar_collects_primary_values :
+  forallb (fun m => match fst (run m 60 w_mapcar_values) with Ok (VInt 2) => true | _ => false end) [Slip; Ref; Chk] = true.
+Proof. exact mapcar_collects_primary_values. Qed.
+Print Assumptions C01_mapcar_collects_primary_values.
